@@ -155,6 +155,9 @@ std::shared_ptr<IFeature> BaseTagHDF5::getFeature(const std::string &name_or_id)
 
 std::shared_ptr<IFeature>  BaseTagHDF5::getFeature(ndsize_t index) const {
     boost::optional<H5Group> g = feature_group(false);
+    if (!g) {
+        throw OutOfBounds("No feature at given index", index);
+    }
     std::string id = g->objectName(index);
     return getFeature(id);
 }
